@@ -693,6 +693,26 @@ class ExtendedKalmanFilter:
         # Remove the rounding asymmetry so that it can not accumulate until the
         # covariance is refused as asymmetric
         next_covariance = (next_covariance + next_covariance.transpose()) / 2.0
+        # The products above cancel from the magnitude of the prior down to the
+        # magnitude of the posterior, so their rounding error is relative to the
+        # PRIOR. An eigenvalue that lies below zero by no more than that is
+        # rounding error, not a loss of positive semi-definiteness: clip it,
+        # otherwise the next call refuses the covariance this call returned
+        # (e.g. exactly correlated states, prior 1e6, sensor noise 1e-3)
+        if covariance.data.size > 0:
+            eigenvalues, eigenvectors = np.linalg.eigh(next_covariance)
+            rounding = (
+                100.0
+                * self.state_size
+                * np.finfo(float).eps
+                * float(np.max(np.abs(covariance.data)))
+            )
+            if -rounding <= eigenvalues.min() < 0.0:
+                next_covariance = np.matmul(
+                    eigenvectors * np.maximum(eigenvalues, 0.0),
+                    eigenvectors.transpose(),
+                )
+                next_covariance = (next_covariance + next_covariance.transpose()) / 2.0
 
         next_state = state.data + np.matmul(K_t, innovation)
 
